@@ -1,7 +1,7 @@
 """C01 - an exclusive method serves at most one active call per cycle."""
 
 from tv.designs import gen_spec
-from tv.props._core_a import run_design
+from tv.props._core_a import run_design, tier_opts
 
 ID = "C01"
 ENGINE = "A"
@@ -26,7 +26,7 @@ def budget(tier):
 
 
 def strategy(tier):
-    return gen_spec(allow_rels=True)
+    return gen_spec(**{**tier_opts(tier), **dict(allow_rels=True)})
 
 
 def run_case(case):
